@@ -309,7 +309,7 @@ func nzs(x []string) []string {
 
 func cfgJSON(c *cors.Config) any {
 	if c == nil {
-		return nil
+		return "nil (passthrough)"
 	}
 	return map[string]any{
 		"Origins": nzs(c.Origins), "Credentialed": c.Credentialed, "Methods": nzs(c.Methods),
